@@ -553,7 +553,114 @@ func raceRun(sel string) {
 	}
 }
 
+// sweeps: one call on many distinct inputs in one process (state that only shows after many different inputs:
+// bounded caches, eviction, memo tables)
+var sweepFamilies = []string{"GetDilithiumAddressFromPK", "GetXMSSAddressFromPK+Legacy", "IsValidAddress", "SeedBinToMnemonic", "MnemonicToSeedBin", "xmss.Verify(message j)", "dilithium.Verify(message j)", "dilithium.Verify(pk j)", "descriptor(bytes j)"}
+
+func sweepCall(fam int, j int) string {
+	jb := []byte{byte(j), byte(j >> 8), byte(j >> 16)}
+	switch fam {
+	case 0:
+		pk := fx.DPK
+		pk[40], pk[41], pk[900] = pk[40]^jb[0], pk[41]^jb[1], pk[900]^jb[0]
+		return call(func() string { return digest(dilithium.GetDilithiumAddressFromPK(pk)) })
+	case 1:
+		pk := fx.XPK
+		pk[10], pk[11], pk[60] = pk[10]^jb[0], pk[11]^jb[1], pk[60]^jb[0]
+		return call(func() string { return digest(xmss.GetXMSSAddressFromPK(pk), xmss.GetLegacyXMSSAddressFromPK(pk)) })
+	case 2:
+		ad, ax := fx.AddrD, fx.AddrX
+		ad[19], ad[18], ax[19], ax[18] = ad[19]^jb[0], ad[18]^jb[1], ax[19]^jb[0], ax[18]^jb[1]
+		la := fx.LegacyA
+		la[20] ^= jb[0]
+		la[21] ^= jb[1]
+		return call(func() string {
+			return fmt.Sprint(dilithium.IsValidDilithiumAddress(ad), xmss.IsValidXMSSAddress(ax), xmss.IsValidLegacyXMSSAddress(la), dilithium.IsValidDilithiumAddress(ax), xmss.IsValidXMSSAddress(ad))
+		})
+	case 3:
+		sd, es := fx.SeedA, fx.ESeedA
+		sd[0], sd[1], sd[47] = sd[0]^jb[0], sd[1]^jb[1], sd[47]^jb[0]
+		es[3], es[4], es[50] = es[3]^jb[0], es[4]^jb[1], es[50]^jb[0]
+		return call(func() string { return digest(misc.SeedBinToMnemonic(sd), misc.ExtendedSeedBinToMnemonic(es)) })
+	case 4:
+		sd := fx.SeedA
+		sd[0], sd[1], sd[47] = sd[0]^jb[0], sd[1]^jb[1], sd[47]^jb[0]
+		m := misc.SeedBinToMnemonic(sd)
+		return call(func() string { return digest(misc.MnemonicToSeedBin(m)) })
+	case 5:
+		m := append([]byte(nil), fx.XMsg...)
+		m[0], m[1] = m[0]^jb[0], m[1]^jb[1]
+		return call(func() string { return fmt.Sprint(xmss.Verify(m, fx.XSig, fx.XPK)) })
+	case 6:
+		m := append([]byte(nil), fx.DMsg...)
+		m[0], m[1] = m[0]^jb[0], m[1]^jb[1]
+		return call(func() string { return fmt.Sprint(dilithium.Verify(m, fx.DSig, &fx.DPK)) })
+	case 7:
+		pk := fx.DPK
+		pk[40], pk[41] = pk[40]^jb[0], pk[41]^jb[1]
+		return call(func() string { return fmt.Sprint(dilithium.Verify(fx.DMsg, fx.DSig, &pk)) })
+	case 8:
+		return call(func() string {
+			d := xmss.NewQRLDescriptorFromBytes([]uint8{byte(j), byte(j >> 8), 0})
+			return digest(d.GetBytes(), d.GetHeight(), d.GetHashFunction(), d.GetSignatureType(), d.GetAddrFormatType())
+		})
+	}
+	return "?"
+}
+
+// sweepRun (child): "fam:n:order"; order fwd2 = inputs 0..n-1 twice, rev = n-1..0 once. Prints one JSON array per pass.
+func sweepRun(sel string) {
+	loadFixtures()
+	var fam, n int
+	var order string
+	parts := strings.Split(sel, ":")
+	fmt.Sscan(parts[0], &fam)
+	fmt.Sscan(parts[1], &n)
+	order = parts[2]
+	var passes [][]string
+	if order == "rev" {
+		res := make([]string, n)
+		for j := n - 1; j >= 0; j-- {
+			res[j] = sweepCall(fam, j)
+		}
+		passes = append(passes, res)
+	} else {
+		for p := 0; p < 2; p++ {
+			res := make([]string, n)
+			for j := 0; j < n; j++ {
+				res[j] = sweepCall(fam, j)
+			}
+			passes = append(passes, res)
+		}
+	}
+	b, _ := json.Marshal(map[string]any{"passes": passes, "fixtures": fixtureDigest()})
+	fmt.Println(string(b))
+}
+
+func sweepSpawn(sel string) ([][]string, string, string) {
+	cmd := exec.Command(self())
+	cmd.Env = append(os.Environ(), "VERIF_C15_SWEEP="+sel)
+	var eb bytes.Buffer
+	cmd.Stderr = &eb
+	out, err := cmd.Output()
+	if err != nil {
+		return nil, "", fmt.Sprintf("%v: %s", err, tail(eb.String(), 1500))
+	}
+	var r struct {
+		Passes   [][]string `json:"passes"`
+		Fixtures string     `json:"fixtures"`
+	}
+	if err := json.Unmarshal(bytes.TrimSpace(out), &r); err != nil {
+		return nil, "", "unparsable child output: " + tail(string(out), 300)
+	}
+	return r.Passes, r.Fixtures, ""
+}
+
 func main() {
+	if s := os.Getenv("VERIF_C15_SWEEP"); s != "" {
+		sweepRun(s)
+		return
+	}
 	if s := os.Getenv("VERIF_C15_EXEC"); s != "" {
 		childExec(s)
 		return
@@ -864,6 +971,46 @@ func main() {
 				if os.Getenv("VERIF_RACE_BIN") != "" {
 					raceSel(c, i, fmt.Sprintf("after:%d:%d,%d:%d", s.p, s.a, s.b, reps), -1)
 				}
+			}
+		}})
+	ck.Domains = append(ck.Domains, &drv.Domain{Name: "input-sweeps", Size: int64(len(sweepFamilies)), Chunk: 1,
+		Desc: "histories over many DISTINCT inputs: each of 9 call families on inputs j = 0..n-1 (n = 300; thorough 5000, descriptor 65536) in one fresh process, the whole sweep twice, and once in the opposite order in another fresh process: the result for input j is the same in the first pass, the second pass and the reversed process (bounded caches / memo tables with eviction answer an early input from a recycled slot)",
+		Run: func(c *drv.Ctx, lo, hi int64) {
+			for i := lo; i < hi; i++ {
+				c.At(i)
+				n := 300
+				if c.Tier == "thorough" {
+					n = 5000
+					if i == 8 {
+						n = 65536
+					}
+				}
+				fwd, f1, e1 := sweepSpawn(fmt.Sprintf("%d:%d:fwd2", i, n))
+				c.Tick()
+				rev, f2, e2s := sweepSpawn(fmt.Sprintf("%d:%d:rev", i, n))
+				c.Eval(int64(3 * n))
+				c.Nontrivial(int64(3 * n))
+				if fwd == nil || rev == nil || len(fwd) != 2 || len(rev) != 1 {
+					if strings.Contains(e1+e2s, "go-qrllib") {
+						c.Fail(i, "sweep-process-crashed:"+sweepFamilies[i], map[string]any{"err": tail(e1+" "+e2s, 2000)})
+					} else {
+						c.Cap("a sweep process could not be run (infrastructure): " + tail(e1+" "+e2s, 200))
+					}
+					continue
+				}
+				if f1 != fx.Solo["fixtures"] || f2 != fx.Solo["fixtures"] {
+					c.Fail(i, "shared-input-buffers-modified", map[string]any{"family": sweepFamilies[i]})
+				}
+				distinct := map[string]bool{}
+				for j := 0; j < n; j++ {
+					distinct[fwd[0][j]] = true
+					if fwd[0][j] != fwd[1][j] || fwd[0][j] != rev[0][j] {
+						c.Fail(i, "result-depends-on-earlier-inputs:"+sweepFamilies[i], map[string]any{"input_index": j, "inputs_in_sweep": n, "first_pass": fwd[0][j], "second_pass": fwd[1][j], "reversed_order_process": rev[0][j]})
+						break
+					}
+				}
+				c.Max("distinct_results_in_one_sweep", int64(len(distinct)))
+				c.Outcome(fmt.Sprintf("distinct>1=%v", len(distinct) > 1))
 			}
 		}})
 	ck.Finish = func(cov map[string]any, m map[string]*drv.DomStats) {
